@@ -156,3 +156,16 @@ def run(ctx):
             else:
                 ctx.bad('C06.5-bad-frame-isolated', inst, 'after a decode error the function reads from the transport again before returning', ctx.where(B, bb),
                         key='CFG:%s:read-after-decode-error' % p)
+
+    # ---------------- clause 6: nothing read ahead is thrown away ----------------------------------------------------
+    ctx.rule('C06.6-reader-identity', 'every socket read on the receive path is issued on the connection\'s own reader (a parameter or a field of self), never on a buffering adaptor '
+             'created per call: bytes such an adaptor reads beyond the current frame would be dropped with it, i.e. the next message lost', floor=4)
+    from .c05 import read_calls, reader_identity, READ_FILES
+    for B in P.all('edp_client'):
+        if B.b['file'] not in READ_FILES:
+            continue
+        seen = {}
+        for bb, t, m in read_calls(B):
+            k = seen.get(m, 0) + 1
+            seen[m] = k
+            reader_identity(ctx, 'C06.6-reader-identity', B, bb, t, m, '%s:%s%s' % (B.path, m, '' if k == 1 else '#%d' % k))
